@@ -53,6 +53,17 @@ def generator_seeds():
     return out
 
 
+def wide_seeds(tier):
+    """many small seeds covering the operand classes the rules distinguish (zero / unit / negative / fractional
+    coefficients and exponents) and every ancestor context of the balanced move; explored less deep"""
+    s = X.termsums(2, X.TERMS_T, ["+", "*"])
+    s += ["x^(2 + -2) * x^3", "x^(1 - 1) * x", "(2 - 2) * x + x", "x^2 * x^(3 - 3)", "0x + 2x", "x + 0x", "(1 - 1)x^2 * x"]
+    ctx = X.contexts(1)
+    s += ctx[:: (3 if tier == "quick" else 1)]
+    s += X.equations(["2", "-3", "x", "2x", "0x", "x^2"], ("+", "-", "*"))[:: (5 if tier == "quick" else 1)]
+    return list(dict.fromkeys(s))
+
+
 def seeds(tier):
     s = list(DOC_SEEDS)
     repo = X.repo_inputs(REPO)
@@ -172,23 +183,29 @@ def _work(task):
 
 
 def run(tier, seed):
-    _SEEDS[:] = seeds(tier)
+    deep = seeds(tier)
+    wide = [t for t in wide_seeds(tier) if t not in set(deep)]
+    _SEEDS[:] = deep + wide
     d, cap = DEPTH[tier], CAP[tier]
-    tasks = [(i, d, cap) for i in range(len(_SEEDS))]
+    dw = d - 1
+    tasks = [(i, d, cap) for i in range(len(deep))]
     # long seeds first
     tasks.sort(key=lambda t: -len(_SEEDS[t[0]]))
+    tasks += [(i, dw, cap) for i in range(len(deep), len(_SEEDS))]
     acc = merge_all(par.pmap(_work, tasks))
     cov = {
         "states": acc.n["states"],
         "transitions": acc.n["transitions"],
         "traces_validated_against_impl": acc.n["traces_replayed"],
         "exhaustive": acc.n["capped_seeds"] == 0,
-        "bound": {"depth": d, "state_cap_per_seed": cap, "seeds": len(_SEEDS)},
+        "bound": {"depth_deep_seeds": d, "deep_seeds": len(deep), "depth_wide_seeds": dw, "wide_seeds": len(wide),
+                  "state_cap_per_seed": cap},
         "seeds_that_hit_the_state_cap": acc.n["capped_seeds"],
         "max_depth_reached": acc.n["max_depth"],
         "merged_duplicate_states": acc.n["merged_duplicates"],
-        "explanation": f"breadth-first search to depth {d} from {len(_SEEDS)} seeds (documentation-style examples, repository rule examples, "
-                       "problem-generator outputs, term-structured seeds); every reachable canonical state is expanded with every "
+        "explanation": f"breadth-first search to depth {d} from {len(deep)} seeds (documentation-style examples, repository rule examples, "
+                       f"problem-generator outputs) and to depth {dw} from {len(wide)} small seeds covering every operand class and every "
+                       "ancestor context of the balanced move; every reachable canonical state is expanded with every "
                        "applicable (configuration, node) transition executed on clone_from_root; each new state is audited, printed and "
                        "re-parsed and compared with the START state; stored live states are re-verified against their creation snapshot "
                        "at expansion time and at the end; every fifth state's recorded trace is replayed from the seed text",
